@@ -54,6 +54,16 @@ def _env():
     return e
 
 
+def _preexec():
+    # CBMC's symbolic execution recurses deeply on nested expressions: with the default 8 MB stack it dies with
+    # SIGSEGV (status 139) on the reader harnesses; measured fine with an unlimited stack
+    import resource
+    try:
+        resource.setrlimit(resource.RLIMIT_STACK, (resource.RLIM_INFINITY, resource.RLIM_INFINITY))
+    except (ValueError, OSError):
+        pass
+
+
 def _watchdog(stop, killed):
     """kill any cbmc process whose RSS passes the limit (no swap on this box: one runaway SAT
     instance would otherwise take the whole run down). A killed harness is reported as error."""
@@ -84,7 +94,38 @@ def _prune_old_builds():
         shutil.rmtree(RESULT_DIR, ignore_errors=True)
 
 
-def run(harnesses, timeout_s, jobs=8, extra=None, log_path=None, playback=False):
+def _resolve_unwindset(d, harnesses, unwindset, info):
+    """per-loop unwinding bounds are given as {substring of the loop's function name + '.N': bound}; CBMC wants
+    the mangled loop id, which contains the crate disambiguator: compile first (--only-codegen), list the loops
+    of each harness' goto binary (cbmc --show-loops) and match."""
+    cmd = ["cargo", "kani", "--target-dir", TARGET] + ZFLAGS
+    for h in harnesses:
+        cmd += ["--harness", h]
+    cmd += ["--exact", "--only-codegen"]
+    p = subprocess.run(cmd, cwd=d, env=_env(), capture_output=True, text=True, preexec_fn=_preexec)
+    info["codegen_rc"] = p.returncode
+    if p.returncode != 0:
+        return None, p.stdout + "\n" + p.stderr
+    bdir = os.path.join(TARGET, "kani", "x86_64-unknown-linux-gnu", "debug", "build", "rnacos")
+    newest = max((os.path.join(bdir, x) for x in os.listdir(bdir)), key=os.path.getmtime)
+    ids = {}
+    for h in harnesses:
+        short = h.split("::")[-1]
+        import glob
+        outs = [f for f in glob.glob(os.path.join(newest, "out", "*%s.out" % short)) if not f.endswith(".symtab.out")]
+        for f in outs:
+            lp = subprocess.run(["cbmc", "--show-loops", f], capture_output=True, text=True).stdout
+            for m in re.finditer(r"^Loop (\S+):\n\s+file (\S+) line (\d+) column \d+ function (.*)$", lp, re.M):
+                lid, _file, _line, fn = m.groups()
+                num = lid.rsplit(".", 1)[-1]
+                for pat, bound in unwindset.items():
+                    pfn, pnum = pat.rsplit(".", 1)
+                    if pfn in fn and pnum == num:
+                        ids[lid] = max(bound, ids.get(lid, 0))
+    return ids, p.stdout + "\n" + p.stderr
+
+
+def run(harnesses, timeout_s, jobs=8, extra=None, log_path=None, playback=False, unwindset=None):
     """harnesses: list of fully qualified harness names. Returns (dict name -> HarnessResult, info)."""
     shadow.ensure_tokio_shim()
     d = shadow.make_shadow("kani")
@@ -104,12 +145,21 @@ def run(harnesses, timeout_s, jobs=8, extra=None, log_path=None, playback=False)
     with open(LOCK, "w") as lk:
         fcntl.flock(lk, fcntl.LOCK_EX)
         _prune_old_builds()
+        if unwindset:
+            ids, cout = _resolve_unwindset(d, harnesses, unwindset, info)
+            if ids is None:
+                # compile problem: let the main invocation report it
+                pass
+            elif ids:
+                cmd += ["--cbmc-args", "--unwindset", ",".join("%s:%d" % (k, v) for k, v in sorted(ids.items()))]
+                info["unwindset"] = ids
+                info["cmd"] = " ".join(cmd)
         stop = threading.Event()
         killed = []
         wd = threading.Thread(target=_watchdog, args=(stop, killed), daemon=True)
         wd.start()
         try:
-            p = subprocess.run(cmd, cwd=d, env=_env(), capture_output=True, text=True,
+            p = subprocess.run(cmd, cwd=d, env=_env(), capture_output=True, text=True, preexec_fn=_preexec,
                                timeout=timeout_s * max(1, (len(harnesses) + jobs - 1) // jobs) + 1800)
             out = p.stdout + "\n" + p.stderr
             info["rc"] = p.returncode
